@@ -865,7 +865,15 @@ func (r *runningStep) provideEnablingInput(input map[string]any) error {
 	}
 	// Check to make sure it's enabled.
 	// This is an optional field, so no input means enabled.
-	enabled := input["enabled"] == nil || input["enabled"] == true
+	enabled := true
+	if input["enabled"] != nil {
+		// A literal value in the workflow file arrives as text ("true"); the field's schema reads both.
+		enabledValue, err := schema.NewBoolSchema().Unserialize(input["enabled"])
+		if err != nil {
+			return fmt.Errorf("invalid value for the enabled field (%w)", err)
+		}
+		enabled = enabledValue.(bool)
+	}
 	r.enabledInputAvailable = true
 	// Make sure we transition the state before unlocking so the step is not seen as waiting for
 	// input it has already been given.
@@ -929,7 +937,9 @@ func (r *runningStep) provideCancelledInput(input map[string]any) {
 	if input["stop_if"] == nil {
 		return
 	}
-	if input["stop_if"] != false {
+	// A literal value in the workflow file arrives as text ("false"); the field's schema reads both.
+	// Anything that does not read as false stops the step.
+	if stopIf, err := schema.NewBoolSchema().Unserialize(input["stop_if"]); err != nil || stopIf.(bool) {
 		r.cancelled = true
 		r.cancelStep()
 	}
